@@ -5,6 +5,7 @@ package c18
 import (
 	"fmt"
 	"sort"
+	"strings"
 	"time"
 
 	gosm "github.com/ctessum/geom/encoding/osm"
@@ -12,11 +13,13 @@ import (
 )
 
 // The owned scheduler: every worker of extract's pool and its reading loop park at the verif hook points (and at a
-// point inside the keep function, between "read has/need" and "evaluate keep + store + register dependencies");
+// two points around the keep function: between "read has/need" and "evaluate keep", and between the answer and
+// "store + register dependencies");
 // only the entity the controller releases runs. The controller tracks channel occupancy and idle workers, so it
 // knows exactly how many park events follow each release (no timers decide anything).
 
-const pointKeep = 100
+const pointKeep = 100     // before the keep function is evaluated
+const pointKeepDone = 101 // after it has returned, before the worker acts on the answer
 
 type park struct {
 	point int
@@ -54,7 +57,13 @@ func (c *controller) wrapKeep(inner gosm.KeepFunc) gosm.KeepFunc {
 		p := &park{point: pointKeep, obj: obj, grant: make(chan struct{})}
 		c.events <- p
 		<-p.grant
-		return inner(d, obj)
+		ans := inner(d, obj)
+		// a second yield point: what the worker does with the answer (store, register dependencies, count) happens
+		// after other workers may have run
+		p2 := &park{point: pointKeepDone, obj: obj, grant: make(chan struct{})}
+		c.events <- p2
+		<-p2.grant
+		return ans
 	}
 }
 
@@ -114,9 +123,18 @@ func (c *controller) run(done <-chan struct{}) error {
 		if len(en) == 0 {
 			return fmt.Errorf("no enabled entity although extract has not returned (parked %d)", len(c.parked))
 		}
-		feederFirst := c.policy == "" || c.policy == "feeder_first_fifo" || c.policy == "feeder_first_lifo"
-		lifo := c.policy == "feeder_first_lifo" || c.policy == "workers_first_lifo"
+		base := strings.TrimSuffix(c.policy, "_answers_wait")
+		feederFirst := base == "" || base == "feeder_first_fifo" || base == "feeder_first_lifo"
+		lifo := base == "feeder_first_lifo" || base == "workers_first_lifo"
+		answersWait := strings.HasSuffix(c.policy, "_answers_wait")
 		sort.SliceStable(en, func(i, j int) bool {
+			if answersWait {
+				// a worker that holds an answer of the keep function waits as long as anything else can run: the answer is
+				// as old as it can get before it is acted on
+				if wi, wj := en[i].point == pointKeepDone, en[j].point == pointKeepDone; wi != wj {
+					return wj
+				}
+			}
 			fi, fj := isFeeder(en[i]), isFeeder(en[j])
 			if fi != fj {
 				return fi == feederFirst
@@ -167,7 +185,7 @@ func (c *controller) run(done <-chan struct{}) error {
 			if c.active == 0 {
 				maybeEnd = true // the reading loop passes eg.Wait at once
 			}
-		case gosm.VerifWorkerRecv, pointKeep:
+		case gosm.VerifWorkerRecv, pointKeep, pointKeepDone:
 			expect = 1
 		case gosm.VerifWorkerDone:
 			switch {
